@@ -37,9 +37,13 @@ def run(c):
     c.prove("SH.Props.C24", extra_files=["SH/Model/PCache.lean", "SH/Gen/C24.lean"])
     drv = c.driver(DRIVER)
     if binary and drv:
-        rc, out = c.go_run(binary, [f"-n={c.n(1500, 40000)}"])
-        c.harness_ok(rc, out, "verif-c24")
-        c.correspond(out, drv)
+        # thorough: 5 runs of 4000 histories with seeds derived from VERIF_SEED (bounds the size of one output stream)
+        runs = c.n(1, 5)
+        for k in range(runs):
+            rc, out = c.go_run(binary, [f"-n={c.n(1500, 4000)}", f"-seed={c.seed + 7919 * k}"])
+            c.harness_ok(rc, out, "verif-c24")
+            c.correspond(out, drv)
+            del out
 
     def search():
         if not binary:
@@ -71,7 +75,7 @@ META = {
              "(lru, rowsSize, ranges with loadedAt/n/generation), size, map sizes and a final full dump of cache and level maps. A "
              "direct oracle on the real code replays all invalidations naively per second and flags stale-served, "
              "served-not-latest-load, immutable-reloaded, size-bound."),
-    "note": ("Trusted: Lean kernel; the model<->code correspondence on generated histories (quick 1500, thorough 40000 cases); "
+    "note": ("Trusted: Lean kernel; the model<->code correspondence on generated histories (quick 1500, thorough 5 x 4000 cases); "
              "sync.RWMutex/atomic semantics (one critical section = one model step); Go map order treated as an input whose "
              "legality the model checks. Clock hypothesis of served_fresh: the lookup's clock is not behind the clock of an "
              "earlier invalidate call (gc forgets seconds older than its own edge); clock_hypothesis_needed shows by decide that "
